@@ -214,10 +214,10 @@ theorem backProject_spec {p : Program} {qb : Q} {k : Key} {s : St} (inv : Inv p 
         obtain ⟨nd, hnd, hvd, _⟩ := hval k o hm
         rw [hn1] at hnd; cases hnd
         exact hvd
-    -- class B: none of them has a pending backward projection
-    have hnp : StaticProj p → ∀ z nz o, s1.nodes z = some nz → nz.kind = .projection → (k, o) ∈ nz.deps →
+    -- none of the static ones has a pending backward projection
+    have hnp : ∀ z nz o, s1.nodes z = some nz → nz.kind = .projection → IsStaticKey p z → (k, o) ∈ nz.deps →
         nz.pendingBP = false := by
-      intro sp z nz o hz hkz hm
+      intro z nz o hz hkz hsz hm
       rcases hcls z nz o hz hkz hm with h | ⟨hne, _⟩
       · have := (hver z h).2.2
         simpa [hasPending, hz] using this
@@ -230,9 +230,10 @@ theorem backProject_spec {p : Program} {qb : Q} {k : Key} {s : St} (inv : Inv p 
           obtain ⟨dz0, hpz0, hkdz0, _⟩ := inv.kind z nz0 hz0
           rw [hpz] at hpz0; cases hpz0
           have hkz0 : nz0.kind = .projection := by rw [← hkdz0, hkdz]; exact hkz
-          obtain ⟨ks, hks⟩ := sp z dz hpz (by rw [hkdz]; exact hkz)
-          have h1 := (i1.pjStat sp z nz dz ks hz hpz hkz hks).1
-          have h0 := (inv.pjStat sp z nz0 dz ks hz0 hpz hkz0 hks).1
+          obtain ⟨dz', ks, hpz', hks⟩ := hsz
+          rw [hpz] at hpz'; cases hpz'
+          have h1 := (i1.pjStat z nz dz ks hz hpz hkz hks).1
+          have h0 := (inv.pjStat z nz0 dz ks hz0 hpz hkz0 hks).1
           have hmem : k ∈ nz0.deps.map (·.1) := by
             rw [h0, ← h1]; exact List.mem_map.2 ⟨(k, o), hm, rfl⟩
           rw [List.mem_map] at hmem
